@@ -112,6 +112,7 @@ type SymAccess struct {
 	At     int
 	Store  bool
 	IsArr  int64 // >0: fixed array of this length
+	Guards []SymCond // comparisons that hold when this access is evaluated inside a short-circuit condition (earlier operands)
 }
 
 func (e *SymEnv) logAccess(a SymAccess) {
@@ -119,6 +120,7 @@ func (e *SymEnv) logAccess(a SymAccess) {
 		return
 	}
 	a.At = e.curEv
+	a.Guards = append([]SymCond{}, e.curGuards...)
 	*e.Acc = append(*e.Acc, a)
 }
 
@@ -174,6 +176,8 @@ type SymEnv struct {
 	copies map[string]string // fresh slice atom -> source whose content it received at creation
 	Acc    *[]SymAccess      // log of index/slice accesses (shared between clones of one path)
 	curEv  int
+	curGuards []SymCond               // see SymAccess.Guards
+	cmpVals   map[ast.Expr][2]Aff     // operands of comparisons evaluated in the current condition
 	nCall  int
 	Hook   func(i int, ev Ev, sp *SymPath) // called before each event is executed
 	WrapAware bool     // treat uint64 additions of two untrusted 64-bit values as opaque (they may wrap)
@@ -301,12 +305,13 @@ func (e *SymEnv) Eval(x ast.Expr) Aff {
 		return affAtom(e.nameOf(v))
 	case *ast.SelectorExpr, *ast.StarExpr:
 		if path, ok := e.lvalPath(v); ok {
-			if a, ok := e.fields[path]; ok {
-				return a
-			}
-			// a path rooted at a local with a known struct value: substitute the root
+			// a path rooted at a local with a known struct value: substitute the root (stores and call effects
+			// are recorded under the substituted path, so it is the current one)
 			sub := e.substRoot(path, v)
 			if a, ok := e.fields[sub]; ok {
+				return a
+			}
+			if a, ok := e.fields[path]; ok {
 				return a
 			}
 			return affAtom(sub)
@@ -390,7 +395,23 @@ func (e *SymEnv) Eval(x ast.Expr) Aff {
 			return affAtom("<-" + e.Eval(v.X).String())
 		}
 	case *ast.BinaryExpr:
-		l, r := e.Eval(v.X), e.Eval(v.Y)
+		l := e.Eval(v.X)
+		var r Aff
+		if v.Op == token.LOR || v.Op == token.LAND {
+			// the right operand is evaluated only when the left one is false (||) / true (&&)
+			save := e.curGuards
+			e.curGuards = append(append([]SymCond{}, save...), e.guardFacts(v.X, v.Op == token.LOR)...)
+			r = e.Eval(v.Y)
+			e.curGuards = save
+		} else {
+			r = e.Eval(v.Y)
+		}
+		switch v.Op {
+		case token.EQL, token.NEQ, token.LSS, token.LEQ, token.GTR, token.GEQ:
+			if e.cmpVals != nil {
+				e.cmpVals[v] = [2]Aff{l, r}
+			}
+		}
 		switch v.Op {
 		case token.ADD:
 			if isIntegerType(p.Info.TypeOf(v)) {
@@ -981,8 +1002,43 @@ func (p *GoProg) RecvWrites(fd *ast.FuncDecl) []string {
 	return out
 }
 
+// guardFacts lists the comparisons implied by x being true (neg=false) or false (neg=true), using the operand values
+// recorded while x was evaluated (no re-evaluation: calls have effects).
+func (e *SymEnv) guardFacts(x ast.Expr, neg bool) []SymCond {
+	x = ast.Unparen(x)
+	switch v := x.(type) {
+	case *ast.UnaryExpr:
+		if v.Op == token.NOT {
+			return e.guardFacts(v.X, !neg)
+		}
+	case *ast.BinaryExpr:
+		switch v.Op {
+		case token.LOR:
+			if neg {
+				return append(e.guardFacts(v.X, true), e.guardFacts(v.Y, true)...)
+			}
+		case token.LAND:
+			if !neg {
+				return append(e.guardFacts(v.X, false), e.guardFacts(v.Y, false)...)
+			}
+		case token.EQL, token.NEQ, token.LSS, token.LEQ, token.GTR, token.GEQ:
+			if lr, ok := e.cmpVals[v]; ok {
+				op := v.Op
+				if neg {
+					op = negateOp(op)
+				}
+				return []SymCond{{L: lr[0], R: lr[1], Op: op, Node: v, At: e.curEv}}
+			}
+		}
+	}
+	return nil
+}
+
 func (sp *SymPath) addCond(p *GoProg, env *SymEnv, ev Ev, at int) {
 	br := ev.Br
+	env.cmpVals = map[ast.Expr][2]Aff{}
+	first := len(sp.Conds)
+	defer func() { env.curGuards = nil }()
 	if br.Cond == nil {
 		sp.Conds = append(sp.Conds, SymCond{Other: "branch:" + br.Kind + map[bool]string{true: "", false: "!"}[ev.Taken], At: at})
 		return
@@ -997,6 +1053,13 @@ func (sp *SymPath) addCond(p *GoProg, env *SymEnv, ev Ev, at int) {
 	}
 	for _, a := range atomsOf(EdgeFact{Br: br, Taken: ev.Taken}) {
 		e := ast.Unparen(a.E)
+		// operands of a short-circuit chain are evaluated in order: the earlier ones already hold
+		env.curGuards = nil
+		for _, cd := range sp.Conds[first:] {
+			if cd.Other == "" {
+				env.curGuards = append(env.curGuards, cd)
+			}
+		}
 		if be, ok := e.(*ast.BinaryExpr); ok {
 			switch be.Op {
 			case token.EQL, token.NEQ, token.LSS, token.LEQ, token.GTR, token.GEQ:
